@@ -210,6 +210,8 @@ class KNNSubgraph(Subgraph):
         neighbours_idx = np.zeros(k + 1)
         max_distances = np.zeros(k)
 
+        self.density = 0.0
+
         for i in range(self.n_nodes):
             distances.fill(c.FLOAT_MAX)
 
